@@ -371,6 +371,35 @@ def run(prog: Program, rep, thorough: bool) -> None:
         detail = f'density at the station altitude {d0!r}; Mach ratio to cached {r}'
         if d0.equals(A.sym('dr0')) and r is not None and abs(r - 1) <= 1e-4 and form_ok:
             ok_long = True
+    # every way out of the long branch, by sampling: whichever alternative the guards select at a sample (station
+    # altitude, query altitude), the density returned there must be the value of ratio x (T0/T)(p/p0) at that point
+    if ok_long and want_d is not None:
+        import math as _m
+        off = None
+        n_pts = 0
+        for a0_ in (0.0, 4500.0):
+            for d_ in (35.0, -35.0, 120.0, -250.0, 600.0, -900.0, 999.0, 1500.0, 5000.0, 12000.0):
+                env = {'a0': a0_, 'h': a0_ + d_, 'dr0': 0.93, 'mach0': 1104.0, 't0': 11.0, 'p0': 985.0, 'kexp': 5.255876,
+                       'pi': _m.pi}
+                got = value_at(rv, env)
+                if isinstance(got, Tup) and len(got.items) == 2:
+                    got = value_at(ev.lift(lambda *xs: Tup(list(xs)), *got.items), env)
+                if not (isinstance(got, Tup) and len(got.items) == 2 and isinstance(got.items[0], Scalar)):
+                    continue
+                try:
+                    a_, b_ = got.items[0].rf.evalf(env), want_d.evalf(env)
+                except (KeyError, ZeroDivisionError, ValueError, OverflowError):
+                    continue
+                n_pts += 1
+                if abs(a_ - b_) > 1e-9 * abs(b_) and off is None:
+                    off = (a0_, d_, a_, b_, got.items[0].rf)
+        if off is not None:
+            ok_long = False
+            detail = (f'station at {off[0]:g} ft, query {off[1]:+g} ft from it: the density ratio returned is {off[4]!r} = {off[2]:.9f}, '
+                      f'the extrapolation ratio x (T0/T)(p/p0) gives {off[3]:.9f} (relative difference {abs(off[2] / off[3] - 1):.2e}) - '
+                      f'another model is used on that stretch')
+        elif n_pts < 10:
+            raise AnalysisError('long branch of get_density_factor_and_mach_for_altitude: fewer than 10 sample points readable')
     if ok_long:
         rep.ok('C08.R2', gdf.where, 'long formula: ratio x (T0/T)(p/p0); at the station altitude it returns the station '
                'density exactly and the cached Mach within 1e-4')
